@@ -345,6 +345,11 @@ func (r *rewriter) rewriteSelect(s *ast.SelectStmt) ast.Stmt {
 	def := "false"
 	if hasDefault {
 		def = "true"
+	} else {
+		// a select whose every clause returns is a terminating statement; a switch is one only with a
+		// default clause. Select never answers an index that is not a clause.
+		sw.Body.List = append(sw.Body.List, &ast.CaseClause{List: nil, Body: []ast.Stmt{
+			&ast.ExprStmt{X: &ast.CallExpr{Fun: ast.NewIdent("panic"), Args: []ast.Expr{&ast.BasicLit{Kind: token.STRING, Value: strconv.Quote("vrt: select answered an arm that does not exist")}}}}}})
 	}
 	args := []ast.Expr{ast.NewIdent(def)}
 	args = append(args, handles...)
